@@ -1,2 +1,166 @@
-/- C06 driver (stub until the model exists) -/
-def main : IO Unit := pure ()
+/- C06 driver: op lines in, observable lines out (same format as props/C06/harness.cpp). -/
+import TboxModel.Util
+import TboxModel.C06.Model
+open Tbox.Util Tbox.C06
+
+/-- generated payload `g<seed>:<len>`: byte i = (seed + 31 i + i / 256) mod 256 -/
+def genBytes (seed len : Nat) : List Byte :=
+  (List.range len).map fun i => UInt8.ofNat ((seed + 31 * i + i / 256) % 256)
+
+def data? (w : String) : Option (List Byte) :=
+  if w.startsWith "g" then
+    match (w.drop 1).toString.splitOn ":" with
+    | [a, b] => do
+        let seed ← a.toNat?
+        let len ← b.toNat?
+        if seed < 256 ∧ len ≤ 8388608 then some (genBytes seed len) else none
+    | _ => none
+  else bytesOfHex w
+
+def fnv (bs : List Byte) : UInt32 :=
+  bs.foldl (fun h b => (h ^^^ b.toUInt32) * 16777619) 2166136261
+
+def hex32 (v : UInt32) : String :=
+  String.ofList ((List.range 8).map fun i => hexDigit ((v.toNat / 16 ^ (7 - i)) % 16))
+
+/-- short byte strings in hex, long ones as `<len>#<fnv1a>` -/
+def digest (bs : List Byte) : String :=
+  if bs.length ≤ 16 then hexOfBytes bs else toString bs.length ++ "#" ++ hex32 (fnv bs)
+
+def act? (w : String) : Option Act :=
+  if w == "en" then some .enable
+  else if w == "dis" then some .disable
+  else if w == "disc" then some .disconnect
+  else if w.startsWith "s:" then (data? (w.drop 2).toString).map .send
+  else none
+
+/-- `-` = callback set with an empty script, `none` = callback unset, else comma separated acts -/
+def script? (w : String) : Option (Option (List Act)) :=
+  if w == "none" then some none
+  else if w == "-" then some (some [])
+  else ((w.splitOn ",").mapM act?).map some
+
+def wans? (w : String) : Option WAns :=
+  if w == "ea" then some .eagain
+  else if w == "er" then some .err
+  else if w.startsWith "a" then (w.drop 1).toString.toNat?.map .accept
+  else none
+
+def rans? (w : String) : Option RAns :=
+  if w == "ea" then some .eagain
+  else if w == "er" then some .err
+  else if w.startsWith "f" then
+    match (w.drop 1).toString.toNat? with
+    | some d => if d ≤ 2 then some .fill else none
+    | none => none
+  else if w.startsWith "c" then
+    match (w.drop 1).toString.toNat? with
+    | some k => if 1 ≤ k ∧ k ≤ 1024 then some (.chunk (k - 1)) else none
+    | none => none
+  else none
+
+def parseOp (ws : List String) : Option Op :=
+  match ws with
+  | ["init", e] => do let e ← e.toNat?; if e ≤ 7 then pure (.init e) else none
+  | ["initnull"] => some .initNull
+  | ["cinit"] => some .cinit
+  | ["en"] => some .enable
+  | ["dis"] => some .disable
+  | ["send", d] => (data? d).map .send
+  | ["rcb", t, "none"] => do pure (.setRcb (← t.toNat?) none)
+  | ["rcb", t, k, sc] => do
+      let t ← t.toNat?; let k ← k.toNat?
+      match ← script? sc with
+      | none => none
+      | some as => pure (.setRcb t (some (k, as)))
+  | ["scb", sc] => (script? sc).map .setScb
+  | ["zcb", sc] => (script? sc).map .setZcb
+  | ["recb", sc] => (script? sc).map .setRecb
+  | ["wecb", sc] => (script? sc).map .setWecb
+  | ["dcb", sc] => (script? sc).map .setDcb
+  | ["disc"] => some .disconnect
+  | ["feed", d] => (data? d).map .feed
+  | ["peof"] => some .peof
+  | "kw" :: l => if l.isEmpty then none else (l.mapM wans?).map .kw
+  | "kr" :: l => if l.isEmpty then none else (l.mapM rans?).map .kr
+  | ["wmax", k] => k.toNat?.map .wmax
+  | ["rmax", k] => k.toNat?.map fun _ => .nop
+  | ["shr"] => some .nop
+  | ["rd"] => some .rd
+  | ["wr"] => some .wr
+  | _ => none
+
+def showEv : Ev → String
+  | .recv p k => "R:" ++ digest p ++ ":" ++ toString k
+  | .discard p => "D:" ++ digest p
+  | .sendComplete _ => "SC"
+  | .readZero _ => "Z"
+  | .readError c => "RE" ++ toString c
+  | .writeError c => "WE" ++ toString c
+  | .disconnected _ _ => "DC"
+  | .sendDrop _ => "DROP"
+
+def showSt (s : S) : String :=
+  if s.conn ∧ s.expired then "X" else
+  match s.st with | .empty => "E" | .inited => "I" | .running => "R"
+
+def b01 (b : Bool) : String := if b then "1" else "0"
+
+def branchTags (s : S) (op : Op) (s' : S) : List String :=
+  let evs := (s'.hist.drop s.hist.length)
+  let t1 := match op with
+    | .send d =>
+        if s.hasWr = false ∨ (s.conn ∧ s.expired) then ["send-refused"]
+        else if s.st ≠ .running then ["send-before-enable"]
+        else if s.sendQ ≠ [] then ["send-append"]
+        else (match popW s d.length with
+              | (.accept k, _) => if k < d.length then ["send-partial"] else ["send-direct"]
+              | (.eagain, _) => ["send-eagain"]
+              | (.err, _) => ["send-error-drop"])
+    | .enable => if s.st = .inited ∧ s.sendQ ≠ [] then ["enable-with-queued"] else []
+    | .rd =>
+        if s.readOn ∧ (s.pending ≠ [] ∨ s.eof) then
+          (if s'.got.length > s.got.length then
+             (if s'.hist.length = s.hist.length then ["rd-below-threshold"] else ["rd-data"]) ++
+             (if s.recvQ ≠ [] then ["rd-with-leftover"] else []) ++
+             (if s.rq.length - s'.rq.length ≥ 2 then ["rd-multi-chunk"] else []) ++
+             (if s'.pending ≠ [] then ["rd-stopped-early"] else [])
+           else if s.pending = [] then ["rd-eof"] else ["rd-fault"])
+        else ["rd-idle"]
+    | .wr =>
+        if s.writeArmed then
+          (if s.sendQ = [] then ["wr-complete"]
+           else if s'.sendQ = [] then ["wr-drained"]
+           else if s'.sendQ.length < s.sendQ.length then ["wr-partial"] else ["wr-stalled"])
+        else ["wr-idle"]
+    | .disconnect => ["disconnect"]
+    | _ => []
+  let t2 := evs.filterMap fun e => match e with
+    | .recv p k => some (if k = 0 then "consume-none" else if k < p.length then "consume-some" else "consume-all")
+    | .discard _ => some "discard"
+    | .disconnected _ _ => some "disconnected"
+    | .sendDrop _ => some "drop"
+    | _ => none
+  t1 ++ t2 ++ (if s.conn then ["conn"] else [])
+
+def stepLine (s : S) (line : String) : S × List String :=
+  let ws := words line
+  match ws with
+  | [] => (s, [])
+  | "case" :: _ => (init, [line.trimAscii.toString])
+  | _ =>
+    match parseOp ws with
+    | none => (s, ["bad-op"])
+    | some op =>
+      if !op.okIn s then (s, ["bad-op"]) else
+      let (s', r) := step s op
+      let evs := (s'.hist.drop s.hist.length).map showEv
+      let tags := branchTags s op s'
+      (s', (if tags.isEmpty then [] else ["B " ++ " ".intercalate tags]) ++
+        ["P ret=" ++ b01 r ++ " st=" ++ showSt s' ++ " ev=" ++ (if evs.isEmpty then "-" else ",".intercalate evs) ++
+           " wire+=" ++ digest (s'.wire.drop s.wire.length) ++
+           " rq=" ++ (if s'.conn ∧ s'.expired then "x" else digest s'.recvQ),
+         if s'.conn ∧ s'.expired then "M gone" else
+         "M armed=" ++ b01 s'.writeArmed ++ " ron=" ++ b01 s'.readOn ++ " sq=" ++ toString s'.sendQ.length])
+
+def main : IO Unit := runDriver init stepLine
